@@ -1657,11 +1657,6 @@ static void do_source_file(const char *filename_in,
          exit(EX_IOERR);
       }
 
-      if (need_backup)
-      {
-         backup_create_md5_file(filename_in);
-      }
-
       if (filename_tmp != filename_out)
       {
          // We need to compare and then do a rename (but avoid redundant test when if_changed set)
@@ -1690,6 +1685,13 @@ static void do_source_file(const char *filename_in,
                exit(EX_IOERR);
             }
          }
+      }
+
+      if (need_backup)
+      {
+         // record the md5 of what is now in the file, so that the next run
+         // recognizes it as uncrustify's own output and keeps the backup
+         backup_create_md5_file(filename_in);
       }
 
       if (keep_mtime)
